@@ -513,3 +513,13 @@ Proof.
   pose proof (list_op_accounted op l g rv l1 g1 G1 E x) as A.
   specialize (IH l1 g1 G2 x). destruct (sa_list_run r (l1, g1)) as [xs [l2 g2]]. lia.
 Qed.
+
+(* slice assignment of a real sequence: no guard for any start / stop / step *)
+Corollary list_slice_assignment_eq_python : forall start stop step w l g,
+  let op := LSetSlice (mkslice start stop step) (VList w) in
+  fst (sa_list_op op (l, g)) = fst (py_list_op l op) /\
+  fst (snd (sa_list_op op (l, g))) = snd (py_list_op l op).
+Proof.
+  intros start stop step w l g. apply list_op_eq_python.
+  cbn [list_eq_guard]. destruct (adjust _ _) as [[[a b] c]|]; reflexivity.
+Qed.
